@@ -1,4 +1,4 @@
 SPECIFICATION Spec
-CONSTANTS NTok = 111 MaxLen = 2
+CONSTANTS NTok = 111 MaxLen = 2 NTokLong = 61
 INVARIANT Emit
 CHECK_DEADLOCK FALSE
